@@ -50,8 +50,11 @@ pub fn cell(spec: &Value) -> Value {
             let data = body(len);
             let mut viol: Vec<(String, String)> = vec![];
             let desc = format!("{} len={len} blk={eff_blk} ws={} mode={}", if upload_dir { "upload" } else { "download" }, if plain { 1 } else { ws }, match (upload_dir, mode) { (_, 0) => "fault-free", (_, 3) => "another client's small download in the middle", (false, 1) => "duplicate ACKs", (false, _) => "stale ACK before each ACK", (true, 1) => "every DATA twice", (true, _) => "window reversed" });
+            // (the fault-free transfer of the plain cells runs under a name of non-ASCII characters: the name on disk is the
+            // name in the request, byte for byte)
+            let fancy = plain && mode == 0;
             if !upload_dir {
-                let name = format!("x_{len}");
+                let name = if fancy { format!("x_gr\u{fc}\u{df}e-\u{65e5}\u{672c}_{len}") } else { format!("x_{len}") };
                 let p = format!("{}/{}", srv.send_dir, name);
                 if std::fs::metadata(&p).map(|m| m.len() as usize != len).unwrap_or(true) {
                     std::fs::write(&p, &data).unwrap();
@@ -72,7 +75,7 @@ pub fn cell(spec: &Value) -> Value {
                     viol.push(("e2-download-shape".into(), format!("{desc}: {:?}", &r.anomalies[..r.anomalies.len().min(3)])));
                 }
             } else {
-                let name = format!("u_{}_{}", std::process::id(), seq);
+                let name = if fancy { format!("u_gr\u{fc}\u{df}e-\u{65e5}\u{672c}_{}_{}", std::process::id(), seq) } else { format!("u_{}_{}", std::process::id(), seq) };
                 let r = if mode == 0 { upload(&srv, name.as_bytes(), &opts, &data) } else { upload_faulty(&srv, name.as_bytes(), &opts, &data, mode) };
                 c.transitions += r.acks.len() as u64 + 1;
                 let p = format!("{}/{}", srv.recv_dir, name);
